@@ -376,7 +376,7 @@ class Evaluator:
                     return ClassRef(m2.name, r[1])
                 if r[1] in m2.constants:
                     v = Folder(self.repo, m2.name).fold(m2.constants[r[1]])
-                    if v is Unknown:
+                    if _has_unknown(v):
                         # not a literal (a table of classes / functions, a comprehension over repository functions): evaluate its
                         # defining expression in the scope of its module
                         key = (m2.name, r[1])
@@ -711,6 +711,18 @@ class Evaluator:
             except (ValueError, TypeError, OverflowError) as x:
                 raise Raised(type(x).__name__, e)
         raise Undecided("call of %s" % ast.unparse(e.func))
+
+
+def _has_unknown(v, depth=0):
+    if v is Unknown:
+        return True
+    if depth > 6:
+        return False
+    if isinstance(v, dict):
+        return any(_has_unknown(k, depth + 1) or _has_unknown(x, depth + 1) for k, x in v.items())
+    if isinstance(v, (list, tuple, set, frozenset)):
+        return any(_has_unknown(x, depth + 1) for x in v)
+    return False
 
 
 def _qual(mod, fn):
